@@ -150,7 +150,13 @@ def main(tier, replay=None):
         chk.oblige("build:delta-with-hooks", False, out[-2000:])
         return chk.finish()
     vlib.build_native()
-    vlib.standard_proof_obligations(chk, "PropC04")
+    vlib.standard_proof_obligations(chk, "PropC04", gen_names=("ingest",))
+    ok, out = vlib.build_vmodel()
+    if not ok:
+        chk.oblige("build:vmodel", False, out[-2000:])
+        return chk.finish()
+    vm = vlib.vmodel()
+    cr_mism = cr_n = 0
     if replay:
         with open(replay) as f:
             cases = [json.load(f)["case"]]
@@ -184,6 +190,15 @@ def main(tier, replay=None):
         want = [expected_line(lines[i].encode("utf-8")) for i in text_idx]
         outl = out.split(b"\n")
         why = []
+        if c["kind"] == "text" and len(outl) == len(text_idx) + 1:
+            # correspondence: every output line is the extracted model's ingest of the input line (Ingest.v)
+            for i_, got in zip(text_idx, outl):
+                cr_n += 1
+                rep = vm.ask("ingest", lines[i_].encode("utf-8").hex())
+                if not rep.startswith("OK") or bytes.fromhex(rep.split("\t")[1]) != got:
+                    cr_mism += 1
+                    if cr_mism <= 3:
+                        vlib.log(f"[C04] ingest correspondence: input {lines[i_]!r} model {rep} impl {got!r}")
         if c["kind"] == "text":
             exp = b"".join(w + b"\n" for w in want)
             if out != exp:
@@ -203,6 +218,9 @@ def main(tier, replay=None):
         if why:
             chk.violation({"property": PID, "why": "; ".join(why), "case": c, "input": "\n".join(lines), "opts": " ".join(c["opts"]),
                            "output_head": [x.decode("utf-8", "replace") for x in outl[:20]]})
+    chk.oblige("correspondence:cr-cleanup", cr_mism == 0, f"{cr_mism} of {cr_n} pass-through lines differ from the model's ingest")
+    chk.extra["traces_validated_against_impl"] = cr_n - cr_mism
+    vm.close()
     chk.assumptions = ["expected normalisation = the three permitted ones; lines are valid UTF-8 and shorter than max-line-length in this stream",
                        "construct-opening markers excluded from the generated text: " + ", ".join(MARKERS)]
     return chk.finish()
